@@ -5,14 +5,20 @@
    "After resume the run continues and finishes" is PROVED for join-free programs: under every
    schedule of deliveries, pauses, resumes and stops a quiescent run has only final task executions
    and a completed or PAUSED workflow (C10_resumed_run_finishes_joinfree).
-   NOT proved (decided by trace correspondence + oracle only): "finishes with the same final
-   state, task results and output as if it had never been paused" (C10_resume_same_statement),
-   and the sub-workflow part of "its running sub-workflows are PAUSED" (no sub-workflows in
-   the core model). *)
+   "Finishes with the same final state and task results as if it had never been paused" is PROVED
+   for the class simple_b (join-free, forward, command-free definitions with constant guards):
+   a run with operator pauses and resumes at any points, any number of times, ends with the same
+   number of executions of every task, the same final task states and the same workflow state as
+   a run that was never paused (C10_pause_resume_same_result_simple, Proofs/EngineDen.v).
+   NOT proved (decided by trace correspondence + oracle only): the same statement for definitions
+   with joins, cycles, engine commands or data-dependent guards, and for the output
+   (C10_resume_same_statement stays visible), and the sub-workflow part of "its running
+   sub-workflows are PAUSED" (no sub-workflows in the core model). *)
 From Coq Require Import List Bool.
 Require Import Mistral.Gen.States Mistral.Model.Engine.
 Require Import Mistral.Proofs.StatesProofs Mistral.Proofs.EngineWf Mistral.Proofs.EngineSafety Mistral.Proofs.EngineMore
-               Mistral.Proofs.EngineLive.
+               Mistral.Proofs.EngineLive Mistral.Proofs.EngineDen.
+From Coq Require Import Permutation.
 Import ListNotations.
 
 Theorem C10_no_creation_while_paused : forall sp s e,
@@ -71,6 +77,39 @@ Proof.
   split; reflexivity.
 Qed.
 Print Assumptions C10_pause_acknowledged.
+
+(* the same result as a run that was never paused, for the class simple_b: evs1 may contain operator
+   pauses and resumes anywhere (plain6), evs2 contains none (plain4); both runs are quiescent and the
+   first one is not left PAUSED *)
+Theorem C10_pause_resume_same_result_simple : forall sp u1 u2 evs1 evs2,
+  simple_b sp = true -> forallb plain6 evs1 = true -> forallb plain4 evs2 = true ->
+  let s1 := run sp u1 evs1 in let s2 := run sp u2 evs2 in
+  wf_created s1 = true -> pend s1 = [] -> wf_state s1 <> PAUSED -> wf_created s2 = true -> pend s2 = [] ->
+  wf_state s1 = wf_state s2 /\
+  forall n, n < length sp ->
+    rows_named s1 n = rows_named s2 n /\ Permutation (states_named s1 n) (states_named s2 n).
+Proof. exact pause_resume_same_result. Qed.
+Print Assumptions C10_pause_resume_same_result_simple.
+
+(* hypotheses met by a run paused twice (everything deliverable delivered while PAUSED each time) *)
+Example C10_pause_resume_same_result_nonvacuous :
+  let sA := fst (step den_demo init EStart) in
+  let sB := fst (step den_demo sA EPause) in
+  let e1 := drain_evs den_demo sB 200 in
+  let sC := fst (step den_demo (steps den_demo sB e1) EResume) in
+  let e2 := firstn 3 (drain_evs den_demo sC 200) in
+  let sD := fst (step den_demo (steps den_demo sC e2) EPause) in
+  let e3 := drain_evs den_demo sD 200 in
+  let sE := fst (step den_demo (steps den_demo sD e3) EResume) in
+  let e4 := drain_evs den_demo sE 200 in
+  let evs1 := EStart :: EPause :: e1 ++ EResume :: e2 ++ EPause :: e3 ++ EResume :: e4 in
+  let evs2 := EStart :: drain_evs den_demo sA 200 in
+  let s1 := run den_demo [] evs1 in let s2 := run den_demo [] evs2 in
+  forallb plain6 evs1 = true /\ forallb plain4 evs2 = true /\
+  wf_created s1 = true /\ pend s1 = [] /\ wf_state s1 <> PAUSED /\ wf_created s2 = true /\ pend s2 = [] /\
+  wf_state (steps den_demo sB e1) = PAUSED /\ 0 < length e1 /\ wf_state (steps den_demo sD e3) = PAUSED /\ 0 < length e3 /\
+  wf_state s1 = CANCELLED /\ map (rows_named s1) [0; 1; 2; 3] = [1; 1; 2; 2] /\ evs1 <> evs2.
+Proof. exact pause_resume_demo_ok. Qed.
 
 (* the full statement that is NOT proved (kept visible): a run with pause/resume pairs inserted
    anywhere reaches the same final view as the run without them *)
